@@ -25,6 +25,7 @@ type votedCase struct {
 	Signers []int  `json:"signers"`
 	Mut     string `json:"mut"`
 	Acc     bool   `json:"acc"`
+	variant int
 }
 
 var methodOf = map[string]string{
@@ -306,13 +307,26 @@ func votedRun(w *tracew.Writer, cases []votedCase, n int, seed int64, inst, run 
 	if _, err := s.RunBlock(&BlockPlan{DT: 1, Proposer: 0}); err != nil {
 		return err
 	}
-	// rejects first, then one expected accept, per block
+	// rejects first, then one expected accept, per block; a case that marks positions beyond the voter list is replayed once
+	// per mapping of those model positions to real bit positions (exactly n and n+1, word boundaries, far away)
 	var rej, acc []votedCase
 	for _, cs := range cases {
-		if cs.Acc {
-			acc = append(acc, cs)
-		} else {
-			rej = append(rej, cs)
+		beyondMarks := false
+		for _, mk := range cs.Marks {
+			beyondMarks = beyondMarks || mk >= n
+		}
+		variants := 1
+		if beyondMarks {
+			variants = 4
+		}
+		for v := 0; v < variants; v++ {
+			c2 := cs
+			c2.variant = v
+			if c2.Acc {
+				acc = append(acc, c2)
+			} else {
+				rej = append(rej, c2)
+			}
 		}
 	}
 	s.R.Shuffle(len(rej), func(i, j int) { rej[i], rej[j] = rej[j], rej[i] })
@@ -336,7 +350,7 @@ func votedRun(w *tracew.Writer, cases []votedCase, n int, seed int64, inst, run 
 		offsets := map[int]int{}
 		for _, cs := range batch {
 			real := make([]int, len(cs.Marks))
-			beyond := [][2]int{{n, n + 1}, {64, 255}, {200, 129}, {63 + n, 127}}[(inst+len(cs.Marks))%4]
+			beyond := [][2]int{{n, n + 1}, {64, 255}, {200, 129}, {63 + n, 127}}[(inst+cs.variant)%4]
 			for i, mk := range cs.Marks {
 				switch {
 				case mk < n:
@@ -352,7 +366,7 @@ func votedRun(w *tracew.Writer, cases []votedCase, n int, seed int64, inst, run 
 			for i, x := range cs.Signers {
 				sg[i] = x // proposer is member id 1, voter k is member id k+2: identical numbering
 			}
-			vs := VoteSpec{Marks: cs.Marks, RealMarks: real, Signers: sg, Mut: cs.Mut, BitmapLen: []int{0, 32, 8, 16}[inst%4]}
+			vs := VoteSpec{Marks: cs.Marks, RealMarks: real, Signers: sg, Mut: cs.Mut, BitmapLen: []int{0, 32, 8, 16}[(inst+cs.variant)%4]}
 			pfID := vc.Proposer
 			if cs.Mut == "pfVoter" && len(vc.Voters) > 0 {
 				pfID = vc.Voters[0]
